@@ -496,7 +496,7 @@ def cases(rng, tier):
             yield {"kind": "reload", "at": a, "cur": c, "disks": su}
     # (b) schedules: context-bounded (one and two preemptions) then random
     scen = SCENARIOS
-    per = 8 if tier == "quick" else 120
+    per = 30 if tier == "quick" else 120
     for base, roles in scen:
         n = len(roles)
         # one preemption: p runs k steps, then q runs to completion, then the rest
@@ -504,7 +504,7 @@ def cases(rng, tier):
         pairs = [(p, q) for p in range(n) for q in range(n) if p != q]
         picks = [(p, q, k) for (p, q) in pairs for k in ks]
         rng.shuffle(picks)
-        for p, q, k in picks[: (12 if tier == "quick" else len(picks))]:
+        for p, q, k in picks[: (30 if tier == "quick" else len(picks))]:
             yield {"kind": "sched", "base": base, "roles": roles, "sched": [p] * k + [q] * STEPS}
         for _ in range(per):
             # random: bursts of random length
